@@ -88,10 +88,18 @@ type fnSpec struct {
 	// function without results then returns the parameter's final value, and a call statement `f(.., x[:])` / `f(.., x)`
 	// is `let x := f .. x` (computeInfluence(c, mine, out))
 	outParam string
+	// fifth round (search.go)
+	round5 bool
+	// slot: the `*T` result (and every pointer-typed local of that type) points INTO this slice view of the receiver
+	// (`&m.table[i]`); it is translated as the index: result `Option Nat`, `none` = nil
+	slot string
+	// stopAt: `if <this condition, as printed by go/printer> { return }` in a function without results ends the translation:
+	// the function is translated under the assumption that the condition holds (recordCut: no cut log configured)
+	stopAt string
 }
 
 // groups in file order; a function may only call functions of its own or an earlier group
-var groups = []string{"", "Tak", "Over", "Move", "Sym", "AI", "FPA", "Eval", "Pos", "Road", "MoveGen", "SymMove", "Prove", "Apply", "Threat", "Heur"}
+var groups = []string{"", "Tak", "Over", "Move", "Sym", "AI", "FPA", "Eval", "Pos", "Road", "MoveGen", "SymMove", "Prove", "Apply", "Threat", "Heur", "Search"}
 
 var whitelist = []fnSpec{
 	{dir: "bitboard", file: "bits.go", name: "Precompute", lean: "precompute"},
@@ -210,7 +218,13 @@ func init() {
 	}
 	whitelist = append(whitelist, whitelist2...)
 	whitelist = append(whitelist, whitelist3...)
+	for i := range whitelist5 {
+		whitelist5[i].round2 = true
+		whitelist5[i].round3 = true
+		whitelist5[i].round5 = true
+	}
 	whitelist = append(whitelist, whitelist4...)
+	whitelist = append(whitelist, whitelist5...)
 }
 
 // accessors: methods of abstract (non-translatable) parameters that may be read like a field.
@@ -273,6 +287,8 @@ const (
 	tArr  // slice or array: Lean `Array`; elems[0] = element type, alen = static length (-1: slice)
 	tFunc // function value: elems = parameter types ..., result type
 	tBad
+	tMap  // Go map (search.go): Lean association list `List (K × V)`, elems = key, value
+	tSlot // pointer into a declared slice view (search.go): Lean `Option Nat` (the index; none = nil)
 )
 
 type ltype struct {
@@ -303,6 +319,10 @@ func (t ltype) lean() string {
 		return strings.Join(s, " × ")
 	case tArr:
 		return "Array (" + t.elems[0].lean() + ")"
+	case tMap:
+		return "List (" + t.elems[0].lean() + " × " + t.elems[1].lean() + ")"
+	case tSlot:
+		return "Option Nat"
 	case tFunc:
 		var s []string
 		for _, e := range t.elems {
@@ -401,6 +421,11 @@ type tr struct {
 	absAlias        map[types.Object]*absAliasT // `x := p.Analysis()`: x stands for the field path p.analysis
 	outVar          string                      // Lean name of the out-parameter (fnSpec.outParam)
 	closureNeedsOpt bool                        // the closure just translated needs an Option result
+	// fifth round (search.go)
+	slots   map[types.Object]bool // pointer-typed locals that point into the declared slice view: Lean variables holding the index
+	slotAbs *absParam             // the parameter whose view `spec.slot` the slots point into
+	slotMut *absParam             // that parameter when the function also assigns through it
+	loads   map[string]bool       // atomic loads seen (one per path and function)
 }
 
 // nm: the Lean name of the variable an identifier denotes
@@ -556,6 +581,15 @@ func (t *tr) ltypeOf(ty types.Type) ltype {
 		return ltype{c: tBad}
 	}
 	switch u := ty.Underlying().(type) {
+	case *types.Map:
+		if !t.spec.round5 {
+			return ltype{c: tBad}
+		}
+		k, v := t.ltypeOf(u.Key()), t.ltypeOf(u.Elem())
+		if (k.c != tStruct && k.c != tBV && k.c != tInt) || (v.c != tStruct && v.c != tBV && v.c != tInt) {
+			return ltype{c: tBad}
+		}
+		return ltype{c: tMap, elems: []ltype{k, v}}
 	case *types.Slice:
 		e := t.ltypeOf(u.Elem())
 		if e.c == tBad || e.c == tTuple || e.c == tFunc {
@@ -727,6 +761,11 @@ func (t *tr) declareViewList(a *absParam, ty types.Type, decl string, kind strin
 		if _, dup := a.views[name]; dup {
 			continue // listed as input and as assignable
 		}
+		if t.spec.round5 {
+			if handled := t.declareView5(a, ty, ps, path, name); handled {
+				continue
+			}
+		}
 		if ps == "isNil" {
 			// pseudo view: `x == nil` of a pointer parameter
 			if _, isPtr := ty.(*types.Pointer); !isPtr || kind != "view" {
@@ -788,6 +827,11 @@ func (t *tr) expr(e ast.Expr) string {
 	tv := t.p.info.Types[e]
 	if tv.Value != nil && tv.Value.Kind() != constant.Bool {
 		return lit(tv.Value, t.typeOf(e))
+	}
+	if t.spec.round5 {
+		if out, ok := t.expr5(e); ok {
+			return out
+		}
 	}
 	switch e := e.(type) {
 	case *ast.ParenExpr:
@@ -1202,6 +1246,11 @@ func (t *tr) shiftAmount(e ast.Expr) string {
 
 // binary translates e; rt is the Go type of the result (given explicitly: `x op= y` builds a synthetic node)
 func (t *tr) binary(e *ast.BinaryExpr, rt ltype) string {
+	if t.spec.round5 {
+		if out, ok := t.binary5(e, rt); ok {
+			return out
+		}
+	}
 	if e.Op == token.EQL || e.Op == token.NEQ {
 		// `x == nil` of a pointer parameter: the input view x_isNil (mut.go)
 		x, y := e.X, e.Y
@@ -1441,6 +1490,11 @@ func (t *tr) stmt1(s ast.Stmt, tail []ast.Stmt, ret func() string, cont func() s
 
 // stmt1cps: the statement followed by its continuation (translated into every branch that falls through)
 func (t *tr) stmt1cps(s ast.Stmt, tail []ast.Stmt, ret func() string, cont func() string) string {
+	if t.spec.round5 {
+		if out, ok := t.stmt5(s, cont); ok {
+			return out
+		}
+	}
 	switch s := s.(type) {
 	case *ast.ReturnStmt:
 		if t.errRes || t.retMut != nil || t.voidMut != nil {
@@ -2400,6 +2454,10 @@ func (t *tr) signature(recv *ast.FieldList, ft *ast.FuncType) (ps []sigParam, rt
 	for _, fl := range resList {
 		rty := t.p.info.Types[fl.Type].Type
 		lt := t.ltypeOf(rty)
+		if _, isPtr := rty.(*types.Pointer); isPtr && len(fl.Names) == 0 && t.spec.slot != "" {
+			// `*T` pointing into the declared slice view: the index (search.go)
+			lt = t.slotResult(ps, rty)
+		}
 		if lt.c == tBad && len(fl.Names) == 0 {
 			// `*T` of an abstract type: the function returns one of its parameters after assigning through it (mut.go)
 			if a := t.mutParamOfType(ps, rty); a != nil && t.retMut == nil {
@@ -2425,6 +2483,9 @@ func (t *tr) signature(recv *ast.FieldList, ft *ast.FuncType) (ps []sigParam, rt
 	}
 	if len(t.named) != 0 && len(t.named) != len(rts) {
 		t.fail(ft, "partly named results")
+	}
+	if t.slotMut != nil {
+		rts = append(rts, t.mutType(t.slotMut)) // a slot function that also assigns through its receiver returns the fields too
 	}
 	if len(rts) == 1 {
 		rt = rts[0]
@@ -2786,12 +2847,18 @@ func genFuncs(ld *loader) (map[string]string, []error) {
 		}
 		var b strings.Builder
 		for i := 0; i < gi; i++ {
+			if upto, ok := groupImportsUpTo[gr]; ok && i > gidx[upto] {
+				break // a late group that only needs the early files (search.go): a failure in between does not touch it
+			}
 			fmt.Fprintf(&b, "import TakVerif.Generated.%s\n", strings.TrimSuffix(groupFile(groups[i]), ".lean"))
 		}
 		b.WriteString("-- GENERATED by /verif/gen from the Go sources of the repository on every check run. Do not edit.\n")
 		b.WriteString("set_option linter.unusedVariables false\nnamespace Gen\n\n")
 		if gi == 1 {
 			b.WriteString(prelude)
+		}
+		if gr == "Search" {
+			b.WriteString(prelude5)
 		}
 		for _, s := range structDefs {
 			b.WriteString(s)
